@@ -112,6 +112,9 @@ pub struct AbortCase {
     /// after an earlier read_card, so the call's first write meets a dead connection
     #[serde(default)]
     pub prior_fault: Option<usize>,
+    /// another transaction is open on the same client while the aborted call runs (max_transactions = 2)
+    #[serde(default)]
+    pub others_open: bool,
     /// a dangling pre-authorisation exists (needed for the dangling-reversal site)
     pub dangling: bool,
     pub terminal_id_differs: bool,
@@ -151,7 +154,10 @@ pub fn check_abort(c: &AbortCase) -> CheckResult {
     sc.sim.intermediates = c.intermediates;
     sc.sim.card_replies = vec![crate::props::c10::card_reply_hex()];
     sc.sim.dangling = if c.dangling { Some(4242) } else { None };
-    sc.sim.receipts = vec![321];
+    sc.sim.receipts = vec![321, 654];
+    if c.others_open {
+        sc.cfg.max = 2;
+    }
     let tok = "TOKEN".to_string();
     match c.op.as_str() {
         "read_card" => sc.ops = vec![Op::ReadCard],
@@ -166,6 +172,9 @@ pub fn check_abort(c: &AbortCase) -> CheckResult {
         }
         "configure" => sc.ops = vec![Op::Configure],
         _ => return Ok(()),
+    }
+    if c.others_open {
+        sc.setup.push(Op::Begin("OTHER".into()));
     }
     // which occurrence of the site kind (relative to the observed call) is the aborted exchange
     let occ = match (c.op.as_str(), c.site) {
@@ -279,7 +288,7 @@ pub fn run(tier: Tier) -> i32 {
                 // the abort may also come behind a print line and a status information (declined payment)
                 let status_site = matches!(site, Kind::Reservation | Kind::PartialReversal | Kind::PreAuthReversal | Kind::EndOfDay);
                 if status_site {
-                    let c2 = AbortCase { op: op.to_string(), site, code: code as u8, intermediates: inter, after_status: true, with_receipt: None, prior_fault: None, dangling, terminal_id_differs: tid };
+                    let c2 = AbortCase { op: op.to_string(), site, code: code as u8, intermediates: inter, after_status: true, with_receipt: None, prior_fault: None, others_open: false, dangling, terminal_id_differs: tid };
                     st.case(true, fnv(&serde_json::to_vec(&c2).unwrap()));
                     st.class(&format!("{op}/{site:?}:after-status-information"));
                     ctx.record(check_abort(&c2), st);
@@ -287,10 +296,19 @@ pub fn run(tier: Tier) -> i32 {
                 // the reversal / end-of-day family may put a receipt-number field into the abort packet itself
                 if matches!(site, Kind::PendingQuery | Kind::PartialReversal | Kind::PreAuthReversal | Kind::EndOfDay) && inter == 0 {
                     for rc in [0xffffu64, 4711] {
-                        let c3 = AbortCase { op: op.to_string(), site, code: code as u8, intermediates: 0, after_status: false, with_receipt: Some(rc), prior_fault: None, dangling, terminal_id_differs: tid };
+                        let c3 = AbortCase { op: op.to_string(), site, code: code as u8, intermediates: 0, after_status: false, with_receipt: Some(rc), prior_fault: None, others_open: false, dangling, terminal_id_differs: tid };
                         st.case(true, fnv(&serde_json::to_vec(&c3).unwrap()));
                         st.class(&format!("{op}/{site:?}:abort-with-receipt-field"));
                         ctx.record(check_abort(&c3), st);
+                    }
+                }
+                // the same abort while another transaction is open on the client (own exchanges of begin / commit / cancel)
+                if inter <= 1 && matches!((op, site), ("begin", Kind::Reservation) | ("commit", Kind::PartialReversal) | ("cancel", Kind::PreAuthReversal)) && !dangling {
+                    for after_status in [false, true] {
+                        let c5 = AbortCase { op: op.to_string(), site, code: code as u8, intermediates: inter, after_status, with_receipt: None, prior_fault: None, others_open: true, dangling, terminal_id_differs: tid };
+                        st.case(true, fnv(&serde_json::to_vec(&c5).unwrap()));
+                        st.class(&format!("{op}/{site:?}:another-transaction-open"));
+                        ctx.record(check_abort(&c5), st);
                     }
                 }
                 // the abort answers a request that was re-sent after the first attempt lost its connection
@@ -304,7 +322,7 @@ pub fn run(tier: Tier) -> i32 {
                             if after_status && !status_site {
                                 continue;
                             }
-                            let c4 = AbortCase { op: op.to_string(), site, code: code as u8, intermediates: inter, after_status, with_receipt: None, prior_fault: Some(pf), dangling, terminal_id_differs: tid };
+                            let c4 = AbortCase { op: op.to_string(), site, code: code as u8, intermediates: inter, after_status, with_receipt: None, prior_fault: Some(pf), others_open: false, dangling, terminal_id_differs: tid };
                             st.case(true, fnv(&serde_json::to_vec(&c4).unwrap()));
                             st.class(&format!("{op}/{site:?}:abort-of-the-re-sent-request"));
                             ctx.record(check_abort(&c4), st);
@@ -314,7 +332,7 @@ pub fn run(tier: Tier) -> i32 {
                         }
                     }
                 }
-                let c = AbortCase { op: op.to_string(), site, code: code as u8, intermediates: inter, after_status: false, with_receipt: None, prior_fault: None, dangling, terminal_id_differs: tid };
+                let c = AbortCase { op: op.to_string(), site, code: code as u8, intermediates: inter, after_status: false, with_receipt: None, prior_fault: None, others_open: false, dangling, terminal_id_differs: tid };
                 st.case(true, fnv(&serde_json::to_vec(&c).unwrap()));
                 st.class(&format!("{op}/{site:?}"));
                 if code == 0x64 && inter == 1 {
@@ -332,7 +350,7 @@ pub fn run(tier: Tier) -> i32 {
             let strat = (0usize..SITES.len(), any::<u8>(), 0usize..6, any::<bool>());
             ctx.proptest(seed, 20_000, &strat, st, |(si, code, inter, dang), st| {
                 let (op, site, dangling, tid) = SITES[*si];
-                let c = AbortCase { op: op.to_string(), site, code: *code, intermediates: *inter, after_status: *inter % 2 == 1, with_receipt: if *inter % 3 == 2 { Some(*code as u64 * 7 % 9999) } else { None }, prior_fault: match *inter { 4 => Some(0), 5 => Some(99), _ => None }, dangling: dangling || *dang, terminal_id_differs: tid };
+                let c = AbortCase { op: op.to_string(), site, code: *code, intermediates: *inter, after_status: *inter % 2 == 1, with_receipt: if *inter % 3 == 2 { Some(*code as u64 * 7 % 9999) } else { None }, prior_fault: match *inter { 4 => Some(0), 5 => Some(99), _ => None }, others_open: *inter == 3 && matches!(site, Kind::PartialReversal | Kind::PreAuthReversal | Kind::Reservation), dangling: dangling || *dang, terminal_id_differs: tid };
                 st.case(true, fnv(&serde_json::to_vec(&c).unwrap()));
                 st.class("random");
                 check_abort(&c)
@@ -340,7 +358,7 @@ pub fn run(tier: Tier) -> i32 {
         });
         stats.merge(s);
     }
-    stats.exhaustive_parts = vec!["all 256 result codes x 16 (operation, exchange) sites x abort directly after the ack / after 1 and 3 intermediate packets / behind a print line and a status information carrying a receipt number / as the answer to a request re-sent after the first attempt lost its connection (instead of the acknowledgement, of the first reply, of the completion)".into()];
+    stats.exhaustive_parts = vec!["all 256 result codes x 16 (operation, exchange) sites x abort directly after the ack / after 1 and 3 intermediate packets / behind a print line and a status information carrying a receipt number / as the answer to a request re-sent after the first attempt lost its connection (instead of the acknowledgement, of the first reply, of the completion) / while another transaction is open on the client".into()];
     ctx.finish(
         stats,
         "enumeration: every result code 0..255 x every exchange in which the terminal may abort (read_card; begin: Reservation; commit: PartialReversal, pending query, dangling reversal, end-of-day; cancel: PreAuthReversal, pending query, end-of-day; configure: system info, SetTerminalId, Initialization, pending query, dangling reversal, end-of-day) x position of the abort in the reply script. Oracle: the call returns Err whose chain contains ZVTError::Aborted(c), or whose text contains the code (hex or decimal), or - for read_card - the specification's message for c (own copy of the chapter-10 table); documented translations checked positively (read_card+6c => NoCardPresented, Reservation+fc => NeedsPinEntry, end-of-day+a0 => Ok). For the pending query only codes != b8 count as aborts. non-trivial = every case; distinct by (op, site, code, position)",
